@@ -66,6 +66,8 @@ def run(ctx, eng):
             bad.append('first frame is not first')
             continue
         for x in el[1:]:
+            if x[0] == 'splat' and x[1][0] == 'comp':
+                x = x[1][1]     # extend(<frame> for block in ...)
             f = p.state.objs.get(x, {})
             if not cm.is_self_attr(f.get('stream_id'), 'stream_id'):
                 bad.append('a CONTINUATION is on another stream id')
@@ -94,6 +96,22 @@ def run(ctx, eng):
                     tgt = None
             if tgt is not None and tgt != last:
                 bad.append('END_HEADERS not on the last frame')
+    # the block is cut into consecutive slices that cover it exactly: no
+    # slice is empty unless the block is, none is skipped or repeated
+    comps = []
+    for p in cm.normal_paths(eng.I.run(fb)):
+        for c in budget.block_comps(p):
+            if c not in comps:
+                comps.append(c)
+    if not comps:
+        ctx.note('_build_headers_frames fills its block list by a loop: the '
+                 'exact-cover clause reads comprehensions only and is not '
+                 'decided for this form (the width bound is)')
+    ctx.ob('ARITH.partition', fb.qual, 'header block cut into consecutive '
+           'slices', all(budget.exact_partition(c) for c in comps),
+           '[block[i:i+M] for i in range(0, len(block), M)]: ceil(L/M) '
+           'frames, an empty one only for an empty block (found %s)'
+           % [cm.show0(c)[:90] for c in comps], node=fb.node)
     ctx.ob('PAIR.contiguity', fb.qual, 'one block, END_HEADERS last',
            n > 0 and not bad, '; '.join(sorted(set(bad))) or
            'first frame, then CONTINUATIONs on the same stream, END_HEADERS '
